@@ -17,7 +17,13 @@ ID = 'C06'
 LEAN_MODULES = ['Proofs.C06']
 REQUIRED = ['C06.resolve_idem', 'C06.defaults_agree', 'C06.stage_opts_effective', 'C06.route_independent',
             'C06.every_stage_reached', 'C06.legacy_mask_dropped_envelope_opts', 'C06.legacy_noise_sift_dropped_options',
-            'C06.emit_total', 'C06.emit_route_missing', 'C06.emit_ok_wellformed']
+            'C06.emit_total', 'C06.emit_route_missing', 'C06.emit_ok_wellformed',
+            # the supplied numbers reach the rule each in its own place (seeded C06-7 rilling_thresh[0] for [2], C01-7 fallback
+            # options gaining energy_thresh, C06-8 second-layer sift_args without max_imfs): link to the Sift model's options
+            'C06.gni_rule_as_supplied', 'C06.rilling_thresh_positions', 'C06.sd_thresh_as_supplied',
+            'C06.no_energy_thresh_unless_supplied', 'C06.second_layer_args_carry_every_option',
+            # partial sift function AND sift_args (seeded C06-5): call-time keywords win
+            'C06.partial_call_keywords_win', 'C06.funcArgs_stage_opts_effective']
 TRUSTED = ['only stage calls inside the chain get_next_imf -> interp_envelope -> get_padded_extrema are observed (the wrappers track nesting); envelopes computed by frequency_transform for the if mask frequency are not sift stages',
            'the three stage functions get_next_imf / interp_envelope / get_padded_extrema are observed by wrapping the public '
            'module attributes from outside (emd.sift.<name> = wrapper, before any pool forks; workers inherit); each wrapper '
@@ -260,7 +266,8 @@ def routes_of(case):
 
 
 def extra_routes_of(case):
-    """Delivery forms that only exist for the second-layer sifts (instance check only, no model op):
+    """Delivery forms that only exist for the second-layer sifts (instance check by outcome; correspondence of the stage-call records
+    with Options.emitFuncArgs / the direct route of the model):
     get_func+args      sift_second_layer(IA, sift_func=<get_func partial of a config holding the top-level options>,
                        sift_args=<the user's option dicts>): partial and keyword dicts combined; the keyword dicts are the
                        SUPPLIED options (ordinary partial semantics: call-time keywords win)       (round-3 change C06/1)
@@ -535,7 +542,16 @@ class Routing(Stream):
                 'imf': _cfg.wire(_cfg.build(case['imf'])) if case['imf'] is not None else 'N',
                 'env': _cfg.wire(_cfg.build(case['env'])) if case['env'] is not None else 'N',
                 'ext': _cfg.wire(_cfg.build(case['ext'])) if case['ext'] is not None else 'N'}
-        return [proto.op('OPTS', dict(args, route=r)) for r in routes_of(case)]
+        ops = [proto.op('OPTS', dict(args, route=r)) for r in routes_of(case)]
+        # the delivery forms of the second-layer sifts (model: Options.emitFuncArgs - partial AND sift_args, C06.funcArgs_stage_opts_effective;
+        # the direct route without max_imfs - C06.second_layer_args_carry_every_option / stage_opts_effective)
+        for r in extra_routes_of(case):
+            if r == 'get_func+args':
+                ops.append(proto.op('OPTS', dict(args, route='get_func+args')))
+            else:
+                top = {k2: _cfg.build(v2) for k2, v2 in case.get('top', []) if k2 != 'max_imfs'}
+                ops.append(proto.op('OPTS', dict(args, route='direct', top=_cfg.wire(top))))
+        return ops
 
     def compare(self, case, out, results):
         if isinstance(out, ImplError):
@@ -545,8 +561,8 @@ class Routing(Stream):
         if out['fallback']:
             return 'skip:stage functions %s cannot be wrapped from outside; output equivalence only' % out['fallback']
         skipped = None
-        for route, r in zip(routes_of(case), results):
-            o = out['routes'][route]
+        for route, r in zip(list(routes_of(case)) + list(extra_routes_of(case)), results):
+            o = out['routes'][route] if route in out['routes'] else out['extra_routes'][route]
             failed = isinstance(o['outcome'], str) and o['outcome'].startswith('e:')
             if r.status == 'err':
                 if not failed:
@@ -1197,9 +1213,50 @@ def ref_extract(x, imf, env, ext):
         proto = x1          # env_step_size is 1 in this stream
 
 
+class _stop_trace:
+    """Record the numbers the public stop functions emd.sift.sd_stop / rilling_stop / fixed_stop are called with (this process only)."""
+
+    def __init__(self):
+        self.recs = set()
+
+    def __enter__(self):
+        S = sift_mod()
+        self.S = S
+        self.saved = {n: getattr(S, n) for n in ('sd_stop', 'rilling_stop', 'fixed_stop')}
+        sigs = {n: inspect.signature(f) for n, f in self.saved.items()}
+        recs, saved = self.recs, self.saved
+
+        def wrap(name):
+            def w(*a, **kw):
+                try:
+                    ba = sigs[name].bind(*a, **kw)
+                    ba.apply_defaults()
+                    g = ba.arguments
+                    if name == 'sd_stop':
+                        recs.add((0, float(g['sd']), 0.0, 0.0, None))
+                    elif name == 'rilling_stop':
+                        recs.add((1, float(g['sd1']), float(g['sd2']), float(g['tol']), None))
+                    else:
+                        recs.add((2, 0.0, 0.0, 0.0, int(g['max_iters'])))
+                except Exception:  # noqa
+                    recs.add(('unbindable', name))
+                return saved[name](*a, **kw)
+            return w
+        for n in self.saved:
+            setattr(S, n, wrap(n))
+        return self
+
+    def __exit__(self, *exc):
+        for n, f in self.saved.items():
+            setattr(self.S, n, f)
+        return False
+
+
 class StopRule(Stream):
-    """Supplied stop rule / thresholds take effect in the extraction stage: instance-only."""
+    """Supplied stop rule / thresholds take effect in the extraction stage: instance check (documented rule with the supplied numbers)
+    and correspondence (the numbers the stop functions receive vs Options.imfOptsOf of the model's get_next_imf records)."""
     name = 'stop_rule'
+    TRACED = {'get_next_imf': ('get_next_imf', 'top'), 'sift': ('sift', 'imf')}
     parallel = False          # some variants create worker pools
 
     IMF = [{'stop_method': 'rilling', 'rilling_thresh': {'$': 'tuple', 'v': [0.05, 0.5, 0.4]}},
@@ -1275,9 +1332,15 @@ class StopRule(Stream):
             'sift_second_layer': lambda: S.sift_second_layer(x[:, None], sift_args=dict(kw(), max_imfs=1))[:, 0, :],
         }
         np.random.seed(case['signal']['seed'] % 1000)
+        res['rules'] = {}
         for v in self.VARIANTS:
             try:
-                got = np.asarray(calls[v](), dtype=float)
+                with _stop_trace() as tr:
+                    try:
+                        got = np.asarray(calls[v](), dtype=float)
+                    finally:
+                        if v in self.TRACED:
+                            res['rules'][v] = sorted([list(r) for r in tr.recs], key=repr)
                 got = got.reshape(len(x), -1)
                 if got.shape[1] != 1:
                     res['variants'][v] = {'shape': list(got.shape)}
@@ -1286,6 +1349,52 @@ class StopRule(Stream):
             except Exception as e:  # noqa
                 res['variants'][v] = {'error': err_kind(e), 'msg': str(e)[:120]}
         return res
+
+    # -- model side: which rule does every get_next_imf call of the run evaluate (Options.imfOptsOf; C06.gni_rule_as_supplied)
+    def ops(self, case, out):
+        if isinstance(out, ImplError):
+            return []
+        imf = _cfg.wire({k2: _cfg.build(v2) for k2, v2 in case['imf'].items()})
+        env = _cfg.wire(dict(case['env'])) if case['env'] is not None else 'N'
+        ext = _cfg.wire(dict(case['ext'])) if case['ext'] is not None else 'N'
+        ops = []
+        for v in sorted(self.TRACED):
+            vn, where = self.TRACED[v]
+            if where == 'top':      # get_next_imf takes its own options as keywords
+                args = {'variant': vn, 'second': 0, 'legacy': LEGACY, 'route': 'direct', 'rules': 1, 'top': imf, 'imf': 'N',
+                        'env': env, 'ext': ext}
+            else:
+                args = {'variant': vn, 'second': 0, 'legacy': LEGACY, 'route': 'direct', 'rules': 1, 'top': _cfg.wire({'max_imfs': 1}),
+                        'imf': imf, 'env': env, 'ext': ext}
+            ops.append(proto.op('OPTS', args))
+        return ops
+
+    def compare(self, case, out, results):
+        if isinstance(out, ImplError):
+            return None
+        for v, r in zip(sorted(self.TRACED), results):
+            if not r.ok:
+                return '%s: model answered %s' % (v, r.raw[:200])
+            seen = out.get('rules', {}).get(v)
+            if seen is None:
+                continue
+            if not seen:
+                if 'error' in out['variants'].get(v, {}):
+                    continue
+                return '%s: no call of a stop function was observed although the call returned' % v
+            model = []
+            for vec in r.vecs:
+                if vec is None:
+                    model.append(None)
+                else:
+                    kind = int(vec[0])
+                    model.append([kind, float(vec[1]), float(vec[2]), float(vec[3]), int(vec[5]) if kind == 2 else None])
+            if None in model:
+                return 'skip:options outside the modelled value universe'
+            if sorted(model, key=repr) != sorted([list(x) for x in seen], key=repr):
+                return ('%s: the stop function was called with %s, the model reads %s from the get_next_imf arguments '
+                        '([kind 0 sd / 1 rilling / 2 fixed, sd | sd1, sd2, tol, max_iters])' % (v, seen, model))
+        return None
 
     def holds(self, case, out):
         if isinstance(out, ImplError):
